@@ -15,6 +15,44 @@ func deepCopy(m gen.M) gen.M {
 	return r
 }
 
+// cpScanCandidates runs the candidate selector of the driver (drive.CPScan: many small random PB
+// optimisation problems with the strategy off and on) and turns what it returns into ordinary cases,
+// which are then executed and validated like all the others.
+func cpScanCandidates(env *core.Env) []core.Case {
+	var scans []core.Case
+	for k := 0; k < 16; k++ {
+		scans = append(scans, gen.M{"drv": "cpscan", "seed": env.Rand.Intn(1 << 30), "count": env.Pick(600, 100000), "budgetMs": 600000, "ev": []gen.M{}})
+	}
+	core.AssignIDs("scan-", scans)
+	out, err := core.Execute(env, env.Vdrive, scans, 10*time.Minute, "cpscan")
+	if err != nil {
+		env.Logf("candidate scan failed: %v", err)
+		return nil
+	}
+	var res []core.Case
+	scanned := 0
+	for _, t := range out {
+		for _, e := range evs(t) {
+			scanned += n(e, "scanned")
+			for _, f := range sub(e, "found") {
+				var cons []gen.M
+				for _, k := range sub(f, "cons") {
+					cons = append(cons, gen.Ctor("gteq", toInts(k["lits"]), toInts(k["w"]), n(k, "rhs")))
+				}
+				o, _ := f["obj"].(map[string]any)
+				obj := gen.M{"lits": toInts(o["lits"]), "w": toInts(o["w"])}
+				for _, cp := range []bool{false, true} {
+					c := gen.APICase("pb", n(f, "n"), false, cons, true, obj, gen.Cfg(false, 0, 0, cp, false, true), []gen.M{gen.Op("minimize")})
+					c["wbStrict"] = cp
+					res = append(res, deepCopy(c))
+				}
+			}
+		}
+	}
+	env.Logf("candidate scan: %d random PB optimisation problems run with the strategy off and on, %d candidate cases", scanned, len(res))
+	return res
+}
+
 // cpFunCases: every input enumerated by CuttingPlanes.tla (constraint, pivot, assignment; pairs of
 // constraints) and SimplifyLearned.tla (constraints) goes through the real roundToOne / clash /
 // SimplifyPB; the results are compared with the functions of CPOps.tla by CPTrace.tla.
@@ -98,6 +136,7 @@ func init() {
 					res = append(res, deepCopy(c))
 				}
 			}
+			res = append(res, cpScanCandidates(env)...)
 			return res
 		},
 		Cover: func(t core.Case, cov map[string]int) bool {
